@@ -119,53 +119,98 @@ func Run(g *Group, rng *rand.Rand, ntraces, steps int, tr0 int, emit func(Event)
 			// m = -n*d (the two partial results cancel: identity) resp. m = n*d (they coincide: a doubling) - in both parities of m
 			half := new(big.Int).Rsh(g.L, 1)
 			func() {
-			defer func() {
-				if r := recover(); r != nil {
-					e := ev("panic")
-					e.Note = fmt.Sprint(r)
-					emit(e)
-				}
-			}()
-			for _, d := range []*big.Int{big.NewInt(1), new(big.Int).Sub(g.L, big.NewInt(1)), big.NewInt(2), big.NewInt(3), big.NewInt(7)} {
-				e := ev("base")
-				e.Dst, e.K = 0, vlib.Digits(d)
-				g.Base(0, d)
-				form[0] = red(&e, d)
-				emit(e)
-				for _, n := range []*big.Int{big.NewInt(1), big.NewInt(2), big.NewInt(3), big.NewInt(4), big.NewInt(5), big.NewInt(6),
-					new(big.Int).Sub(g.L, big.NewInt(1)), new(big.Int).Sub(g.L, big.NewInt(2)), half, pick()} {
-					nd := new(big.Int).Mod(new(big.Int).Mul(n, form[0]), g.L)
-					for _, m := range []*big.Int{new(big.Int).Mod(new(big.Int).Neg(nd), g.L), nd} {
-						if m.Cmp(g.ScalarMax) > 0 || n.Cmp(g.ScalarMax) > 0 {
-							continue
-						}
-						e := ev("combined")
-						e.Dst, e.A, e.M, e.N = 1, 0, vlib.Digits(m), vlib.Digits(n)
-						g.Combined(1, 0, m, n)
-						form[1] = red(&e, new(big.Int).Add(m, new(big.Int).Mul(n, form[0])))
+				defer func() {
+					if r := recover(); r != nil {
+						e := ev("panic")
+						e.Note = fmt.Sprint(r)
 						emit(e)
-						// observe the result at once: is it the identity, and does it equal the same multiple obtained from the fixed-base path
-						if g.IsID != nil {
-							o := ev("id")
-							o.A, o.Eq = 1, g.IsID(1)
-							emit(o)
-						}
-						if g.NRegs >= 3 {
-							b := ev("base")
-							b.Dst, b.K = 2, vlib.Digits(form[1])
-							g.Base(2, form[1])
-							form[2] = red(&b, form[1])
-							emit(b)
-							o := ev("eq")
-							o.A, o.B, o.Eq = 1, 2, g.Eq(1, 2)
-							emit(o)
+					}
+				}()
+				for _, d := range []*big.Int{big.NewInt(1), new(big.Int).Sub(g.L, big.NewInt(1)), big.NewInt(2), big.NewInt(3), big.NewInt(7)} {
+					e := ev("base")
+					e.Dst, e.K = 0, vlib.Digits(d)
+					g.Base(0, d)
+					form[0] = red(&e, d)
+					emit(e)
+					for _, n := range []*big.Int{big.NewInt(1), big.NewInt(2), big.NewInt(3), big.NewInt(4), big.NewInt(5), big.NewInt(6),
+						new(big.Int).Sub(g.L, big.NewInt(1)), new(big.Int).Sub(g.L, big.NewInt(2)), half, pick()} {
+						nd := new(big.Int).Mod(new(big.Int).Mul(n, form[0]), g.L)
+						for _, m := range []*big.Int{new(big.Int).Mod(new(big.Int).Neg(nd), g.L), nd} {
+							if m.Cmp(g.ScalarMax) > 0 || n.Cmp(g.ScalarMax) > 0 {
+								continue
+							}
+							e := ev("combined")
+							e.Dst, e.A, e.M, e.N = 1, 0, vlib.Digits(m), vlib.Digits(n)
+							g.Combined(1, 0, m, n)
+							form[1] = red(&e, new(big.Int).Add(m, new(big.Int).Mul(n, form[0])))
+							emit(e)
+							// observe the result at once: is it the identity, and does it equal the same multiple obtained from the fixed-base path
+							if g.IsID != nil {
+								o := ev("id")
+								o.A, o.Eq = 1, g.IsID(1)
+								emit(o)
+							}
+							if g.NRegs >= 3 {
+								b := ev("base")
+								b.Dst, b.K = 2, vlib.Digits(form[1])
+								g.Base(2, form[1])
+								form[2] = red(&b, form[1])
+								emit(b)
+								o := ev("eq")
+								o.A, o.B, o.Eq = 1, 2, g.Eq(1, 2)
+								emit(o)
+							}
 						}
 					}
 				}
-			}
 			}()
 			emit(ev("reset"))
 			form = map[int]*big.Int{}
+			// deterministic sweep of the fixed-base path over scalars with a long run of one bits at every offset (the signed / mLSB-set
+			// recodings halve-and-subtract their way through the scalar: a run of ones is where a borrow or carry travels across word
+			// boundaries): k*G from the fixed-base path must equal k*G + 0*G from the double-scalar path
+			if g.NRegs >= 3 {
+				func() {
+					defer func() {
+						if r := recover(); r != nil {
+							e := ev("panic")
+							e.Note = fmt.Sprint(r)
+							emit(e)
+						}
+					}()
+					e := ev("base")
+					e.Dst, e.K = 0, vlib.Digits(big.NewInt(1))
+					g.Base(0, big.NewInt(1))
+					form[0] = red(&e, big.NewInt(1))
+					emit(e)
+					for _, run := range []uint{64, 65} {
+						ones := new(big.Int).Sub(new(big.Int).Lsh(big.NewInt(1), run), big.NewInt(1))
+						for _, low := range []int64{1, 15} {
+							for sh := uint(4); sh+run < uint(g.ScalarMax.BitLen()); sh++ {
+								k := new(big.Int).Add(big.NewInt(low), new(big.Int).Lsh(ones, sh))
+								if k.Cmp(g.ScalarMax) > 0 {
+									continue
+								}
+								b := ev("base")
+								b.Dst, b.K = 1, vlib.Digits(k)
+								g.Base(1, k)
+								form[1] = red(&b, k)
+								emit(b)
+								c := ev("combined")
+								c.Dst, c.A, c.M, c.N = 2, 0, vlib.Digits(k), vlib.Digits(big.NewInt(0))
+								g.Combined(2, 0, k, big.NewInt(0))
+								form[2] = red(&c, k)
+								emit(c)
+								o := ev("eq")
+								o.A, o.B, o.Eq = 1, 2, g.Eq(1, 2)
+								emit(o)
+							}
+						}
+					}
+				}()
+				emit(ev("reset"))
+				form = map[int]*big.Int{}
+			}
 		}
 		set := func() []int {
 			var s []int
